@@ -13,11 +13,13 @@ EXTENDS Integers, TLC, Json
 VARIABLES nl, multi, quote, pad, comments, lead, tail
 vars == <<nl, multi, quote, pad, comments, lead, tail>>
 
-Init == nl = "lf" /\ multi = 0 /\ quote = FALSE /\ pad = 0 /\ comments = 0 /\ lead = 0 /\ tail = 0
+Init == nl = "lf" /\ multi = 0 /\ quote = 0 /\ pad = 0 /\ comments = 0 /\ lead = 0 /\ tail = 0
 
 SetNewline(k)   == nl' = k /\ k \in {"lf", "crlf", "cr"} /\ UNCHANGED <<multi, quote, pad, comments, lead, tail>>
 SetStyle(m)     == multi' = m /\ m \in 0..2 /\ UNCHANGED <<nl, quote, pad, comments, lead, tail>>
-ToggleQuotes    == quote' = ~quote /\ UNCHANGED <<nl, multi, pad, comments, lead, tail>>
+\* rule names: 0 all bare, 1 all quoted, 2 quoted at the top of the annotation and bare inside nested rule-sets,
+\* 3 the reverse, 4 every second name quoted
+SetQuotes(q)    == quote' = q /\ q \in 0..4 /\ UNCHANGED <<nl, multi, pad, comments, lead, tail>>
 Pad(n)          == pad' = n /\ n \in 0..2 /\ UNCHANGED <<nl, multi, quote, comments, lead, tail>>
 Comments(n)     == comments' = n /\ n \in 0..2 /\ UNCHANGED <<nl, multi, quote, pad, lead, tail>>
 LeadingBlank(n) == lead' = n /\ n \in 0..1 /\ UNCHANGED <<nl, multi, quote, pad, comments, tail>>
@@ -25,12 +27,12 @@ TrailingBlank(n) == tail' = n /\ n \in {0, 2} /\ UNCHANGED <<nl, multi, quote, p
 
 Next == \/ \E k \in {"lf", "crlf", "cr"} : SetNewline(k)
         \/ \E m \in 0..2 : SetStyle(m) \/ Pad(m) \/ Comments(m)
-        \/ ToggleQuotes
+        \/ \E q \in 0..4 : SetQuotes(q)
         \/ \E n \in 0..2 : LeadingBlank(n) \/ TrailingBlank(n)
 Spec == Init /\ [][Next]_vars
 
 \* every layout is reachable from every other one: the orbit is one connected class
-TypeOK == nl \in {"lf", "crlf", "cr"} /\ multi \in 0..2 /\ pad \in 0..2 /\ comments \in 0..2 /\ lead \in 0..1 /\ tail \in {0, 2}
+TypeOK == nl \in {"lf", "crlf", "cr"} /\ multi \in 0..2 /\ quote \in 0..4 /\ pad \in 0..2 /\ comments \in 0..2 /\ lead \in 0..1 /\ tail \in {0, 2}
 Emit == PrintT(ToJson([nl |-> nl, multi |-> multi, quote |-> quote, pad |-> pad, comments |-> comments,
                        lead_blank |-> lead, tail_blank |-> tail]))
 ===============================================================================
